@@ -120,6 +120,8 @@ def exec_for(ex, s: ast.For, st: State) -> list[State]:
     spec = ex.contract.loops.get(ordinal)
     if spec is None:
         raise Unsupported('loop %d has no invariant in the contract' % ordinal)
+    if spec.iter_src is not None and ast.unparse(s.iter) != spec.iter_src:
+        raise Unsupported('loop %d iterates %r, the contract expects %r' % (ordinal, ast.unparse(s.iter), spec.iter_src))
     from .symexec import LoopFrame
     tag = 'loop%d' % ordinal
     kind = src[0]
